@@ -6,4 +6,5 @@ import Comet.Vector.Flat
 import Comet.F32
 import Comet.Distance
 import Comet.DistanceF32
+import Comet.Hybrid
 import Comet.Driver.Loop
